@@ -694,33 +694,35 @@ def model_run_strings(tag, g, strs):
     return vlib.coq_eval_lines(tag, IMPORTS, "", ["(run_%s %s)" % (g, cp(s)) for s in strs], shard=400)
 
 
-def shrink(g, s, rounds=10):
-    """Delta debugging on the characters, keeping a code-vs-model disagreement (one coqc call per round:
-    all candidates of one granularity are evaluated together)."""
-    n = 2
+def shrink(g, s, rounds=6):
+    """Shrink a string on which code and model disagree: per round every deletion of a substring between two
+    token/blank boundaries (plus every single character) is tried in ONE kernel evaluation, the shortest
+    candidate that still disagrees is kept."""
+    import random
+    rnd = random.Random(len(s))
     for _ in range(rounds):
         if len(s) < 2:
             break
-        n = min(n, len(s))
-        size = -(-len(s) // n)
-        cands = []
-        for i in range(0, len(s), size):
-            c = s[:i] + s[i + size:]
-            if c not in cands:
-                cands.append(c)
+        cuts = sorted(set([0, len(s)] + [i for i, ch in enumerate(s) if not (ch.isalnum() or ch == "_")]
+                          + [i + 1 for i, ch in enumerate(s) if not (ch.isalnum() or ch == "_")]))
+        pairs = [(i, j) for i in cuts for j in cuts if i < j and (i, j) != (0, len(s))]
+        if len(pairs) > 1200:
+            pairs = rnd.sample(pairs, 1200)
+        cands = {}
+        for i, j in pairs + [(k, k + 1) for k in range(len(s))]:
+            c = s[:i] + s[j:]
+            if c != s:
+                cands[c] = True
+        cands = sorted(cands, key=len)
         model = model_run_strings("c17s", g, cands)
         nxt = None
         for c, m in zip(cands, model):
             if observe(g, c)[0] != m:
                 nxt = c
                 break
-        if nxt is not None:
-            s = nxt
-            n = max(n - 1, 2)
-        elif size == 1:
+        if nxt is None:
             break
-        else:
-            n = min(2 * n, len(s))
+        s = nxt
     return s
 
 
